@@ -18,6 +18,7 @@ import FsVerif.Proofs.MachineStatRun
 import FsVerif.Proofs.MachineTruth
 import FsVerif.Proofs.PackClock
 import FsVerif.Proofs.PackB
+import FsVerif.Proofs.SplitTruth
 import FsVerif.Props.C09
 namespace FsVerif.Props.C17
 open FsVerif MacState
@@ -160,5 +161,28 @@ theorem pack_time_partition (cfg : PackCfg) (acts : List PackState.Act) :
 /-- non-vacuity on the combiner run of Props/C16.demoComb -/
 example : ((PackState.run (PackState.init { kind := .combiner, nin := 2, nout := 1, target := [1, 2] }) C16.demoComb).clock.last,
            (PackState.run (PackState.init { kind := .combiner, nin := 2, nout := 1, target := [1, 2] }) C16.demoComb).clock.tot.sum) = (some 8, 8) := by decide +kernel
+
+/-- Splitter: the state it publishes (0 SETUP, 1 IDLE, 2 PROCESSING, 3 BLOCKED) is, after every activation, either still SETUP or the
+    classification of its workers' ACTUAL flags (no worker processing or blocked: idle; some worker processing: processing; otherwise every
+    worker in the list is blocked) — for every activation sequence in which no activation dies of the IndexError of
+    `time_per_work_occupancy[num_workers]`.  Whenever a worker's flags change, the state check runs in the same activation after the change;
+    the time between activations is charged to the published state (`pack_time_partition`), hence to the state the workers are really in.
+    (The Combiner processes inside its behaviour process and sets PROCESSING by hand: its truthfulness is judged on recorded runs.) -/
+theorem splitter_state_is_actual_activity (cfg : PackCfg) (hk : cfg.kind = .splitter) (acts : List PackState.Act)
+    (hq : PackState.NoIndexCrash (PackState.init cfg) acts) :
+    let s := PackState.run (PackState.init cfg) acts
+    s.clock.cur = 0 ∨ s.clock.cur = PackState.cls s :=
+  PackState.run_tp acts _ (PackState.init_inv cfg) hk (Or.inl rfl) hq
+
+instance decNoIndexCrashP : ∀ (acts : List PackState.Act) (s : PackState), Decidable (PackState.NoIndexCrash s acts)
+  | [], _ => isTrue trivial
+  | x :: xs, s =>
+    have := decNoIndexCrashP xs (s.step x.1 x.2.1 x.2.2).1
+    (inferInstance : Decidable (Call.crash .index ∉ (s.step x.1 x.2.1 x.2.2).2 ∧ PackState.NoIndexCrash (s.step x.1 x.2.1 x.2.2).1 xs))
+
+/-- non-vacuity on the splitter run of Props/C16.demoSplit: no activation dies; at its end the published state is the actual one -/
+example : PackState.NoIndexCrash (PackState.init { kind := .splitter, nin := 1, nout := 1 }) C16.demoSplit ∧
+    (PackState.run (PackState.init { kind := .splitter, nin := 1, nout := 1 }) C16.demoSplit).clock.cur =
+      PackState.cls (PackState.run (PackState.init { kind := .splitter, nin := 1, nout := 1 }) C16.demoSplit) := by decide +kernel
 
 end FsVerif.Props.C17
